@@ -300,6 +300,55 @@ class C15(Prop):
                              'vseed': rng.randrange(1 << 30)})
             done += 1
         ctx.count('precedence-pairs-enumerated', done)
+        if ctx.shard == 0:
+            self.two_time_scales(ctx)
+
+    def two_time_scales(self, ctx):
+        """Two spellings of a two-time-scale specification (default unit ms, period 1 ms): the window bounds written
+        with unit suffixes (`[0:2s]` next to `[0:2]`) and written as plain numbers of the default unit (`[0:2000]`
+        next to `[0:2]`), with keywords or aliases; online and offline monitors must give the same values."""
+        rng = ctx.rng
+        kw = {'once': ('once', 'O'), 'historically': ('historically', 'H'), 'since': ('since', 'S')}
+        for op in ('once', 'historically', 'since'):
+            for b in ((1,) if op == 'since' else (1, 2, 3)):      # (rtamt's bounded since is quadratic in the window)
+                for conn, alias in (('and', '&'), ('or', '|')):
+                    n = rng.randint(4, 8) if op == 'since' else rng.randint(6, 14)
+                    data = dict((k, [rng.choice(lang.SMALL) for _ in range(n)]) for k in ('x', 'y'))
+
+                    def spell(name, ivl_wide, ivl_narrow, c):
+                        if op == 'since':
+                            one = lambda iv: '((x >= 1) %s%s (y >= 1))' % (name, iv)
+                        else:
+                            one = lambda iv: '(%s%s (x >= 1))' % (name, iv)
+                        return '(%s %s (not %s))' % (one(ivl_wide), c, one(ivl_narrow))
+                    texts = [spell(kw[op][0], '[0:%ds]' % b, '[0:%d]' % b, conn),
+                             spell(kw[op][0], '[0:%d]' % (b * 1000), '[0:%d]' % b, conn),
+                             spell(kw[op][1], '[0:%ds]' % b, '[0:%dms]' % b, alias),
+                             spell(kw[op][1], '[0,%d]' % (b * 1000), '[0,%d]' % b, alias)]
+                    sd = {'period': (1, 'ms', 0.1), 'unit': 'ms'}
+                    outs = []
+                    for t in texts:
+                        try:
+                            on = drive.dt_online(t, ['x', 'y'], data, n, sd=sd)
+                            off = drive.values(drive.dt_offline(t, ['x', 'y'], data, n, sd=sd))
+                        except Exception as e:
+                            ctx.violation('variant-raises:two-time-scales', '%r raised %s: %s' % (t, type(e).__name__, e),
+                                          {'type': 'two-time-scales', 'text': t, 'data': data})
+                            outs = None
+                            break
+                        outs.append((t, on, off))
+                    ctx.case({'type': 'two-time-scales', 'op': op, 'b': b, 'conn': conn, 'data': data}, True)
+                    ctx.count('variant:two-time-scales', 1)
+                    if not outs:
+                        continue
+                    t0, on0, off0 = outs[0]
+                    for t, on, off in outs:
+                        if repr(on) != repr(on0) or repr(off) != repr(off0) or repr(on) != repr(off):
+                            ctx.violation('variant-differs:two-time-scales', 'spellings of one two-time-scale specification '
+                                          'disagree (unit ms, period 1 ms): %r online %s offline %s; %r online %s offline %s; '
+                                          'data=%s' % (t0, on0, off0, t, on, off, data),
+                                          {'type': 'two-time-scales', 'texts': [t0, t], 'data': data})
+                            break
 
 
 PROP = C15()
